@@ -59,4 +59,18 @@ theorem same_fields : fieldsOK Gen.Tables.contents = true := by decide +kernel
 example : levelOfConcern ⟨25000, 32⟩ 25000 1 (.fin false ⟨1, 1⟩) = some "*" := by decide +kernel
 example : levelOfConcern ⟨25000, 32⟩ 25000 1 (.fin false ⟨3, 2⟩) = none := by decide +kernel
 
+
+/-- `item.levelOfConcern` statement by statement, REGENERATED from sizes/output.go: a saturated value is
+    always shown with the off-scale marker; otherwise alert = value / scale (in float64), the row is
+    hidden iff alert < threshold, the marker is off-scale iff alert > 30, else the first ⌊alert⌋ stars —
+    the decision sequence that `Model/Output.levelOfConcern` implements and the theorems above are about -/
+theorem level_of_concern_statements :
+    Gen.Tables.levelOfConcernFlow =
+      [("let", "value, overflow", "i.value.ToUint64()"),
+       ("if", "overflow", "\"!!!!!!!!!!!!!!!!!!!!!!!!!!!!!!\", true"),
+       ("let", "alert", "Threshold(float64(value) / i.scale)"),
+       ("if", "alert < threshold", "\"\", false"),
+       ("if", "alert > 30", "\"!!!!!!!!!!!!!!!!!!!!!!!!!!!!!!\", true"),
+       ("return", "", "stars[:int(alert)], true")] := by decide
+
 end GitSizer.C11
